@@ -106,6 +106,24 @@ def grid_cases(versions):
             cases.append({"label": label, "reqs": [{"v": list(v), "items": [item]}]})
         for label, req in M.header_menu():
             cases.append({"label": label, "reqs": [dict(req, v=list(v))]})
+        # batches: every creating operation followed by every identifier-less (ID placeholder) item
+        creators = [("Create", F.create_item()), ("Register", F.register_item("SymmetricKey", label="b13")),
+                    ("RegisterSecret", F.register_item("SecretData", label="b13s")),
+                    ("CreateKeyPair", F.keypair_item()),
+                    ("DeriveKey", {"op": "DeriveKey", "uids": [idx["SymmetricKey/ACTIVE"]], "method": "PBKDF2",
+                                   "attrs": [["Cryptographic Length", 128], ["Cryptographic Algorithm", "AES"],
+                                             ["Cryptographic Usage Mask", F.ALL_MASK]],
+                                   "dp": {"params": {"hash": "SHA_256"}, "salt": "0102", "iter": 1}})]
+        from vlib import hist as _hist
+        for cl, citem in creators:
+            for pop in _hist.PLACEHOLDER_OPS:
+                if pop in ("Encrypt", "MAC", "Sign") and tuple(v) < (1, 2):
+                    continue
+                for cont in (None, "CONTINUE"):
+                    req = {"v": list(v), "items": [citem, _hist.placeholder_item(pop, v), {"op": "GetAttributes"}]}
+                    if cont:
+                        req["cont"] = cont
+                    cases.append({"label": "Batch/%s+%s" % (cl, pop), "reqs": [req]})
     return cases
 
 
